@@ -502,11 +502,16 @@ end mods
 
 /-! ## specification side (what C01 states) -/
 
-/-- a block copy at atom offset `off`: numbered by the residue id `r0 + (resid in block - 1)`, charge
-groups shifted by `cg`; everything else verbatim -/
-def place : Nat → Nat → Nat → List BAtom → List Atom
-  | _, _, _, [] => []
-  | off, r0, cg, a :: rest => ⟨off, r0 + (a.resid - 1), a.cgrp + cg, a.attrs⟩ :: place (off + 1) r0 cg rest
+/-- a block copy at atom offset `off`: numbered by the residue id `r0 + (resid in block - base)` where
+`base` is the resid the block's first atom carries (1 in every library block), charge groups shifted by
+`cg`; everything else verbatim -/
+def place : Nat → Nat → Nat → Nat → List BAtom → List Atom
+  | _, _, _, _, [] => []
+  | off, r0, base, cg, a :: rest =>
+    ⟨off, r0 + (a.resid - base), a.cgrp + cg, a.attrs⟩ :: place (off + 1) r0 base cg rest
+
+/-- the resid carried by the first atom of the block -/
+def blockBase (b : Block) : Nat := match b.atoms with | [] => 1 | a :: _ => a.resid
 
 def lastCg (b : Block) : Nat := match b.atoms.getLast? with | some a => a.cgrp | none => 0
 
@@ -525,7 +530,7 @@ def specGo (ff : FF) : Nat → Nat → Nat → List (ResNode κ) → Mol
     | none => ⟨[], []⟩
     | some b =>
       let tail := specGo ff (off + b.atoms.length) (cg + lastCg b) (if r.fromItp.isSome then b.nres - 1 else 0) rest
-      ⟨place off r.resid cg b.atoms ++ tail.atoms, b.ixns.map (shiftIxn off) ++ tail.ixns⟩
+      ⟨place off r.resid (blockBase b) cg b.atoms ++ tail.atoms, b.ixns.map (shiftIxn off) ++ tail.ixns⟩
 
 end spec
 
